@@ -56,6 +56,9 @@ mod proofs {
         let mut buckets: HashMap<u8, (Instant, Cnt, Cnt)> = HashMap::new();
         buckets.slots[0] = Some((key, (w, cnt(m), cnt(n))));
         if other_present { buckets.slots[1] = Some((other, other_bucket)); }
+        // any number of further tracked keys (up to 2^40): the size of the map is symbolic
+        buckets.others = kani::any();
+        kani::assume(buckets.others <= 1 << 40);
         set_now(now);
         // built by the real constructor (so that fields a refactoring adds are initialised by it), then put into the symbolic state
         let mut rl: RateLimiter<u8> = RateLimiter::new(duration, limit_u as usize);
@@ -137,6 +140,30 @@ mod proofs {
         }
         if ok && due { assert!(s.rl.last_cleanup == s.now, "C13.cleanup.advances"); } else { assert!(s.rl.last_cleanup <= s.now, "C13.cleanup.monotone"); }
         kani::cover!(ok && due && s.other_present, "cleanup with another key");
+    }
+
+    /// the same fairness contract when the visitor is a key the limiter does not track yet (its first visit), whatever the number of
+    /// tracked keys: making room for a newcomer must not touch another key's live counters
+    #[kani::proof]
+    fn other_keys_fresh_visitor() {
+        let mut s = setup(1 << 24, 1);
+        kani::assume(s.other_present);
+        s.rl.buckets.slots[0] = None;
+        let d = s.rl.duration;
+        let due = s.now.saturating_duration_since(s.rl.last_cleanup) >= d * 2;
+        let ok = s.rl.enqueue(s.key);
+        match s.rl.buckets.get(&s.other) {
+            Some(b) => {
+                assert!(b.0 == s.other_bucket.0, "C13.other.window_untouched.fresh_visitor");
+                assert!(b.1.bits() == s.other_bucket.1.bits() && b.2.bits() == s.other_bucket.2.bits(), "C13.other.counters_untouched.fresh_visitor");
+            }
+            None => {
+                assert!(ok && due, "C13.cleanup.only_when_due.fresh_visitor");
+                assert!(s.now.saturating_duration_since(s.other_bucket.0) >= d * 2, "C13.cleanup.removes_only_idle_keys.fresh_visitor");
+            }
+        }
+        kani::cover!(ok && due, "cleanup on a newcomer's visit");
+        kani::cover!(s.rl.buckets.len() > 16_384, "more tracked keys than any fixed cap");
     }
 
     /// the same step contract for limits above 2^24, where an f32 cannot count (x + 1.0 == x from 16777216 on): a counter kept
